@@ -358,7 +358,7 @@ func c10Rebuild(c *core.Ctx, r *core.Reporter) {
 		// either a local make that is stored into the field, or a store of a fresh map dominating all updates
 		var freshStore *ssa.Store
 		var updates []*ssa.MapUpdate
-		core.Instrs(fn, func(in ssa.Instruction) {
+		c.RegionInstrs(fn, func(in ssa.Instruction) { // the refill loop may live in a helper extracted from fn
 			switch x := in.(type) {
 			case *ssa.Store:
 				if f := core.FieldOf(x.Addr); f != nil && core.N(f) == spec.field {
@@ -382,7 +382,8 @@ func c10Rebuild(c *core.Ctx, r *core.Reporter) {
 		if ok {
 			// unconditional: the store's block dominates every update, and is not guarded by a nil test of the field
 			for _, u := range updates {
-				if !core.InstrDominates(freshStore, u) && !core.HasClass(u.Map, "make") {
+				at := c.Anchor(fn, u)
+				if (at == nil || !core.InstrDominates(freshStore, at)) && !core.HasClass(u.Map, "make") {
 					ok = false
 				}
 			}
